@@ -102,7 +102,9 @@ func decodeWithContext(
 		return nil
 	}
 	// Convert the k/v pairs.
-	var b *logtags.Buffer
+	// Note: an empty (non-nil) buffer when only the redacted tags were
+	// received, so that the accessors and the encoder can use it.
+	b := &logtags.Buffer{}
 	for _, t := range m.Tags {
 		b = b.Add(t.Tag, t.Value)
 	}
